@@ -362,6 +362,51 @@ pub fn observe_any(id: u64, members: &[String], mode: &str, sigma: &[u32], max_s
     rec
 }
 
+/// C18: `escape(s)`, the glob built from it, and `is_meta_character` of every character of `s`.
+pub fn observe_escape(id: u64, s: &str, sigma: &[u32], max_states: usize) -> Value {
+    let mut rec = json!({"id": id, "kind": "escape", "s": cps(s), "outcome": "ok", "panic": "", "qpanic": "", "ekind": ""});
+    let r = guarded(|| {
+        let escaped = wax::escape(s).into_owned();
+        let meta: Vec<bool> = s.chars().map(wax::is_meta_character).collect();
+        let ctx: Vec<bool> = s.chars().map(wax::is_contextual_meta_character).collect();
+        (escaped, meta, ctx)
+    });
+    let escaped = match r {
+        Ok((escaped, meta, ctx)) => {
+            rec["escaped"] = json!(cps(&escaped));
+            rec["meta"] = json!(meta);
+            rec["ctx"] = json!(ctx);
+            escaped
+        },
+        Err(site) => {
+            rec["outcome"] = json!("panic");
+            rec["panic"] = json!(site);
+            return rec;
+        },
+    };
+    rec["e"] = json!(cps(&escaped));
+    match guarded(|| Glob::new(&escaped)) {
+        Err(site) => {
+            rec["outcome"] = json!("panic");
+            rec["panic"] = json!(site);
+        },
+        Ok(Err(error)) => {
+            let (outcome, kind) = classify(&error);
+            rec["outcome"] = json!(outcome);
+            rec["ekind"] = json!(kind);
+        },
+        Ok(Ok(glob)) => {
+            match guarded(|| queries(&glob)) {
+                Ok(q) => rec["q"] = q,
+                Err(site) => rec["qpanic"] = json!(site),
+            }
+            rec["is_match_s"] = json!(glob.is_match(s));
+            rec["dfa"] = table_json(glob.verif_pattern(), sigma, max_states);
+        },
+    }
+    rec
+}
+
 pub fn parse_sigma(arg: &str) -> Vec<u32> {
     serde_json::from_str::<Vec<u32>>(arg).expect("--sigma must be a JSON array of code points")
 }
@@ -433,6 +478,7 @@ pub fn run(args: &[String]) {
                                 });
                                 let sigma: &[u32] = own_sigma.as_deref().unwrap_or(sigma);
                                 let rec = match case["kind"].as_str().unwrap_or("glob") {
+                                    "escape" => observe_escape(id, &from_cps(&case["s"]), sigma, max_states),
                                     "any" => {
                                         let members: Vec<String> = case["members"]
                                             .as_array()
